@@ -56,7 +56,7 @@ class _Chan:
     def turn(self):
         if self.credit == 0:
             _send(self.wfd, ('ready', os.getpid(), self.buf)); self.buf = []
-            cmd = _recv(self.rfd, timeout=120.)
+            cmd = _recv(self.rfd, timeout=600.)
             if cmd == 'raise':
                 raise _Injected('injected fault')
             assert cmd[0] == 'go'
@@ -155,6 +155,15 @@ def _session(N, n, to_w, from_w, res_w):
     os._exit(0)
 
 
+def _alive(pid):
+    try:
+        with open('/proc/%d/stat' % pid) as f:
+            st = f.read()
+        return st[st.rindex(')') + 2] not in 'ZX'
+    except (FileNotFoundError, ProcessLookupError):
+        return False
+
+
 def run_schedule(N, n, events, drain=400):
     """execute `events` (list of 's<w>'/'k<w>'/'x<w>') then a round-robin drain; returns dict(trace, claims, outcome, events)
     where events is the list actually executed (schedule + drain) so that the model can be run on exactly the same list"""
@@ -182,7 +191,7 @@ def run_schedule(N, n, events, drain=400):
         if state.get(w, 'pending') != 'pending':
             return
         try:
-            msg = _recv(from_w[w][0], timeout=60.)
+            msg = _recv(from_w[w][0], timeout=120.)
         except EOFError:
             state[w] = 'dead'; return
         what, pid, reports = msg
@@ -263,11 +272,20 @@ def run_schedule(N, n, events, drain=400):
         outcome = 'blocked'
         if not blocked or state.get(0) in ('failed',):
             try:
-                msg = _recv(res_r, timeout=20.)
+                msg = _recv(res_r, timeout=90.)
                 outcome = 'returns' if msg[0] == 'returns' else 'raised:%s:%s' % (msg[1], msg[2])
             except (EOFError, TimeoutError):
                 outcome = 'no-result'
-        return dict(trace=trace, claims=claims, outcome=outcome, events=executed, states=[state.get(w) for w in range(N)])
+        survivors = []
+        if outcome.startswith('raised:_Injected'):
+            # the parent body raised: `_fork` must have SIGKILLed every child (they would otherwise wait for the scheduler forever)
+            t_end = time.time() + 3.
+            pend = [pids[w] for w in range(1, N) if w in pids and state.get(w) in ('ready', 'pending')]
+            while pend and time.time() < t_end:
+                pend = [p_ for p_ in pend if _alive(p_)]
+                if pend: time.sleep(0.01)
+            survivors = pend
+        return dict(trace=trace, claims=claims, outcome=outcome, events=executed, states=[state.get(w) for w in range(N)], survivors=survivors)
     finally:
         try:
             os.killpg(spid, signal.SIGKILL)
